@@ -108,10 +108,30 @@ pub fn history<const CAP: u32, const PRE: usize, const REP: usize, const YLD: us
             pl[j] = payload[next_id as usize + j];
             j += 1;
         }
+        // an iterator that yields MORE than it reported must be stopped by the documented
+        // assertion. Under Kani (no unwinding) the driver expects exactly that assertion to be
+        // violated for these instances; natively the panic is caught and checked here.
+        #[cfg(kani)]
         v.extend(
             Lying { reported: REP, yielded: YLD, next: 0, first_id: next_id, payloads: pl },
             fill,
         );
+        #[cfg(not(kani))]
+        {
+            let r = std::panic::catch_unwind(std::panic::AssertUnwindSafe(|| {
+                v.extend(
+                    Lying { reported: REP, yielded: YLD, next: 0, first_id: next_id, payloads: pl },
+                    fill,
+                )
+            }));
+            check!(r.is_err() == (YLD > REP), "C08 an iterator that yields more items than it reported is stopped by the documented assertion (and only then)");
+            if YLD > REP {
+                // the surplus item must not have been written anywhere
+                check!(v.get((PRE + REP) as u32).is_none(), "C08 a lookup returns nothing for an index no completed push was assigned");
+                std::mem::forget(v);
+                return;
+            }
+        }
         let mut j = 0;
         while j < YLD {
             published[PRE + j] = Some(next_id + j as u8);
